@@ -166,9 +166,42 @@ func refusedOp(r *hx.RNG) string {
 	return "XQ:" + wrongVerifyMethods[r.Intn(len(wrongVerifyMethods))]
 }
 
-func randOps(r *hx.RNG, d domain, n int, kind string) []string {
+func mergeDomains(ds ...domain) domain {
+	var d domain
+	for _, x := range ds {
+		d.methods = append(d.methods, x.methods...)
+		d.paths = append(d.paths, x.paths...)
+		d.statuses = append(d.statuses, x.statuses...)
+		d.headers = append(d.headers, x.headers...)
+		d.queries = append(d.queries, x.queries...)
+	}
+	return d
+}
+
+// reconfOp: POST of a further configuration, straight or through the proxy
+func reconfOp(r *hx.RNG, kind string, tree *node) string {
+	if kind != "DIR" && r.Chance(1, 3) {
+		route := "2"
+		if kind != "SEQ" && r.Bool() {
+			route = "3"
+		}
+		return "AP" + route + tree.String()
+	}
+	return "P" + tree.String()
+}
+
+func randOps(r *hx.RNG, d domain, n int, kind string, later []*node) []string {
 	var ops []string
 	for i := 0; i < n; i++ {
+		if kind != "DIR" && len(later) > 0 && r.Chance(1, 9) {
+			ops = append(ops, reconfOp(r, kind, later[0]))
+			later = later[1:]
+			continue
+		}
+		if kind != "DIR" && r.Chance(1, 40) {
+			ops = append(ops, "PX")
+			continue
+		}
 		if r.Chance(1, 12) {
 			ops = append(ops, refusedOp(r))
 			continue
@@ -362,6 +395,72 @@ func generate(cfg *hx.Config) []hx.Case {
 		}
 	}
 
+	// 1d. reconfiguration: sequences of configurations whose effective scopes
+	// differ (request-only, response-only, both, none; by group scope and by
+	// verifier type), widening and narrowing, with traffic / query / reset in
+	// between.  After a POST the tree is the new configuration's on BOTH sides.
+	scopedCfg := func(j int, sc byte) string {
+		b := 10 * j
+		return fmt.Sprintf("G%c(L%dhn,L%dfn,L%dsn,F%dhn(L%dhn;L%dun))", sc, b+1, b+2, b+3, b+4, b+5, b+6)
+	}
+	typedCfg := func(j int, which int) string {
+		b := 10 * j
+		switch which {
+		case 0: // request-only by verifier type
+			return fmt.Sprintf("Gn(L%dfn,L%dmn,L%dpn)", b+1, b+2, b+3)
+		case 1: // response-only by verifier type
+			return fmt.Sprintf("L%dsn", b+1)
+		case 2: // both
+			return fmt.Sprintf("L%dhb", b+1)
+		default: // nothing
+			return "Gn()"
+		}
+	}
+	var cfgSeqs [][]string
+	for _, a := range []byte("qsbn") {
+		for _, b := range []byte("qsbn") {
+			cfgSeqs = append(cfgSeqs, []string{scopedCfg(1, a), scopedCfg(2, b), scopedCfg(3, 'n')})
+		}
+	}
+	for a := 0; a < 4; a++ {
+		for b := 0; b < 4; b++ {
+			cfgSeqs = append(cfgSeqs, []string{typedCfg(1, a), typedCfg(2, b), typedCfg(3, (a+b+1)%4)})
+		}
+	}
+	for si, seq := range cfgSeqs {
+		r := rng.Fork()
+		kind := []string{"SEQ", "SEQM", "SEQN"}[si%3]
+		var ds []domain
+		for _, tok := range seq {
+			t, err := parseTree(tok)
+			if err != nil {
+				panic(tok + ": " + err.Error())
+			}
+			ds = append(ds, domainOf(t))
+		}
+		d := mergeDomains(ds...)
+		in := []string{kind, seq[0], "Q"}
+		traffic := func(n int) {
+			for i := 0; i < n; i++ {
+				in = append(in, randMessage(r, d, randKind(r), 0).token())
+			}
+		}
+		traffic(4)
+		in = append(in, "Q")
+		for j, tok := range seq[1:] {
+			if j == 1 {
+				in = append(in, "PX")
+			}
+			in = append(in, reconfOp(r, kind, mustTree(tok)), "Q")
+			traffic(4)
+			in = append(in, "Q", "R", "Q")
+			traffic(2)
+			in = append(in, "Q")
+		}
+		add("reconf", in)
+		cfg.Count("gen=reconfiguration")
+	}
+
 	// 2. random trees and histories
 	for k := 0; k < nRandom; k++ {
 		r := rng.Fork()
@@ -373,7 +472,23 @@ func generate(cfg *hx.Config) []hx.Case {
 		tree := g.top(r.Range(1, maxDepth))
 		d := domainOf(tree)
 		kind := []string{"SEQ", "SEQM", "SEQN", "DIR"}[k%4]
-		in := append([]string{kind, tree.String()}, randOps(r, d, r.Range(4, maxOps), kind)...)
+		var later []*node
+		if kind != "DIR" && k%3 == 0 {
+			// further configurations of the same case (ids continue, so every verifier stays identifiable)
+			for j := r.Range(1, 3); j > 0; j-- {
+				g.nextID += 3
+				var t *node
+				if r.Chance(1, 6) {
+					t, _ = parseTree("G" + string("qsbn"[r.Intn(4)]) + "()")
+				} else {
+					t = g.top(r.Range(1, 3))
+				}
+				later = append(later, t)
+				d = mergeDomains(d, domainOf(t))
+			}
+			cfg.Count("gen=random_with_reconfiguration")
+		}
+		in := append([]string{kind, tree.String()}, randOps(r, d, r.Range(4, maxOps), kind, later)...)
 		add("rnd", in)
 		cfg.Count("gen=random")
 		cfg.Count(fmt.Sprintf("tree_nodes=%d", bucket(countNodes(tree))))
@@ -581,4 +696,12 @@ func pathVariants(lt byte) []message {
 		vs = append(vs, message{}, message{bad: 1})
 	}
 	return vs
+}
+
+func mustTree(tok string) *node {
+	t, err := parseTree(tok)
+	if err != nil {
+		panic(tok + ": " + err.Error())
+	}
+	return t
 }
